@@ -127,7 +127,16 @@ func genC14(r *Rng) *Plan {
 	}
 	gen := "doc-" + shapeTag
 	// malformed variants and boot faults
-	switch r.Intn(12) {
+	switch r.Intn(14) {
+	case 11:
+		// the malformed field sits in a nested position: an extra route states a type of its own
+		if b := firstBlock(doc.Services[0]); b != nil {
+			if len(b.Extra) == 0 {
+				b.Extra = []*DocBlock{{From: "svc1-extra.{{root}}", To: "svc1-extra.{{back}}", Backend: []string{"svc1-extra.backend.sim"}}}
+			}
+			b.Extra[len(b.Extra)-1].Type = r.Pick("teleport", "Simple", "regexp", "rewrite_host")
+			gen += "-badextratype"
+		}
 	case 0:
 		if b := firstBlock(doc.Services[0]); b != nil {
 			if b.Options == nil {
